@@ -410,3 +410,32 @@ func TestReplayReusedListUnknownFieldIterator(t *testing.T) {
 		t.Fatalf("expected no posting, got %v %v", p, err)
 	}
 }
+
+// D12: the iterator of an empty postings list (absent term, unknown field) is the
+// shared empty iterator, which has no postings list behind it; Count must be 0.
+func TestReplayCountOnEmptyIterator(t *testing.T) {
+	s, _, err := newWithChunkMode([]segment.Document{
+		&FakeDocument{NewFakeField("_id", "a", true, false, false), NewFakeField("name", "wow cool", true, true, false)},
+	}, encodeNorm, 1024)
+	if err != nil {
+		t.Fatal(err)
+	}
+	seg := s.(*Segment)
+	d, _ := seg.Dictionary("name")
+	pl, err := d.PostingsList([]byte("absent"), nil, nil)
+	if err != nil {
+		t.Fatal(err)
+	}
+	it, err := pl.Iterator(true, true, true, nil)
+	if err != nil {
+		t.Fatal(err)
+	}
+	defer func() {
+		if r := recover(); r != nil {
+			t.Fatalf("Count on the iterator of an absent term panicked: %v", r)
+		}
+	}()
+	if n := it.Count(); n != 0 {
+		t.Fatalf("count %d", n)
+	}
+}
